@@ -39,6 +39,9 @@ CLAIMED = {
  'C18': dict(cat='exploration', ref='5/C18', tech='simulated file layer with fault injection (truncation at any byte, byte/bit flips, zeroed blocks, swapped/reversed records, empty/odd-length/garbage/missing file, replacement between probes and between searches) under the real Book class and under UCI sessions with OwnBook; reference polyglot encoder/decoder as oracle',
       text='Polyglot books are generated from random lines (duplicates, zero weights, castling in king-takes-rook encoding, promotions, noise records), written to a per-run file and damaged by the fault plan; every probe of every position along and off the lines must return no move or a legal move (ASan/UBSan flavour: no memory error); with the well-formed file returned moves must be stored under the position key, every stored move must be listed, zero-weight moves are not drawn; in sessions the bestmove is legal whether it came from the book or from the search while the file is damaged, removed or restored between searches.',
       note='Polyglot key computation is taken from the repo (covered by PolyglotTest vectors); move encoding/decoding is re-implemented in the harness. Dynamic I/O errors (EIO/short read in the middle of one probe) are not injected; content faults and replacement between probes are.'),
+ 'C19': dict(cat='exploration', ref='5/C19', tech='seeded operation sequences with crash-restart fault injection on BookBuild::Book through the declared test friend; after every operation a complete scan of the defining equations of every node against an independent reference graph; simulated disk = backup log cut at an arbitrary byte of its appended tail',
+      text='Random sequences of {add position under any node (transpositions add parents), set search result (normal, mate, game over, ignore), pending marks, writeToFile/readFromFile, crash-restart}; after EVERY operation EVERY node is checked: negamax equation, both expansion costs, both path errors, depth = breadth-first distance in the reference graph, children/parents mutually consistent and equal to the reference edges (all legal-move links between book positions); reloaded books must have the same graph and values; a book rebuilt from a backup log cut at any byte (torn last record) must equal the reference built from exactly the records fully contained in the prefix.',
+      note='The header defines negamax and expansion cost; the local rule for path errors is transcribed from computePathError (the header is silent), the oracle adds the global part: every node after every history. extendBook\'s multi-threaded scheduler is not driven (needs engine searches per node). Crash cuts are restricted to the appended tail of the backup log (DESIGN.md 5/C19).'),
  'C10': dict(cat='exploration', ref='5/C10', tech=SIM + 'PCT-style and random schedulers with bounded unfairness, spurious wake-ups, stalls; safety + bounded-liveness + quiescence oracle',
       text='Control scripts (go/finish, go/stop, ponder/ponderhit, ponder/stop, back-to-back go, Threads changes, quit/EOF during search) with Threads 1..8 and tiny searches; every command is released at a chosen sim step so it meets the engine at every stage; exactly one legal bestmove per go, no simulator deadlock, all threads parked after the last bestmove (wait_idle), all threads joined at exit. Exhaustive bounded pre-emption search is NOT done; PCT sampling is the substitute.',
       note='Liveness judged with step/node budgets under schedulers with a starvation bound; pre-emption only at intercepted sync points, clock reads, stream appends, node ticks.'),
@@ -53,7 +56,7 @@ NA = {
  'C20': 'The constraint solver is a pure function of the constraint system (DESIGN.md section 6).',
 }
 PENDING = {}
-for pid in ['C04', 'C19']:
+for pid in ['C04']:
     PENDING[pid] = 'check designed (DESIGN.md section 5) but not yet built/gated in this tree; not claimed until it passes its determinism and sensitivity gates'
 
 def main():
